@@ -183,6 +183,11 @@ def work(task):
             _work_enum(sc, task, stats, out)
         elif sc.kind == "machine":
             _work_machine(sc, task, stats, out)
+        elif sc.kind == "atheris":
+            r = _work_atheris(sc, task, out)
+            out.update(r)
+            out["wall"] = time.time() - t0
+            return out
         else:
             raise ValueError(sc.kind)
         out.update(stats.result())
@@ -249,3 +254,35 @@ def _work_machine(sc, task, stats, out):
         run_state_machine_as_test(seed(s)(cls), settings=_hyp_settings(task["n"], steps=sc.steps))
     except Violation:
         out["violation"] = {"case": last["case"], **last["v"].payload()}
+
+
+def _work_atheris(sc, task, out):
+    """coverage-guided campaign in a subprocess (atheris.Fuzz() never returns); scratch dir under /tmp, removed afterwards"""
+    import shutil
+    import subprocess
+    import sys
+    import tempfile
+    here = os.path.dirname(os.path.dirname(os.path.abspath(__file__)))
+    wd = tempfile.mkdtemp(prefix="verif-atheris-")
+    empty = {"evaluations": 0, "hashes": np.zeros(0, np.uint64), "labels": {}, "samples": [], "redirected": 0, "skips": 0, "nontrivial_evals": 0}
+    try:
+        s = derive_seed(task["seed"], task["pid"], sc.name, task["shard"]) % (2**31 - 1) + 1
+        p = subprocess.run([sys.executable, "-W", "ignore", "-m", "vlib.fuzz_atheris", task["pid"], sc.name, str(task["n"]), str(s), wd],
+                           cwd=here, capture_output=True, text=True)
+        stats_file = os.path.join(wd, "stats.json")
+        if os.path.exists(stats_file):
+            r = json.load(open(stats_file))
+            r["hashes"] = np.array(r["hashes"], dtype=np.uint64)
+        else:
+            r = dict(empty)
+        if p.returncode == 3 and os.path.exists(os.path.join(wd, "violation.json")):
+            out["violation"] = json.load(open(os.path.join(wd, "violation.json")))
+        elif p.returncode != 0:
+            if "No module named 'atheris'" in p.stderr or "No module named atheris" in p.stderr:
+                r = dict(empty)
+                r["labels"] = {"skipped:atheris-not-installed": 1}
+            else:
+                out["error"] = "atheris subprocess exit %d\n%s" % (p.returncode, (p.stdout + p.stderr)[-1500:])
+        return r
+    finally:
+        shutil.rmtree(wd, ignore_errors=True)
